@@ -592,7 +592,8 @@ class Verifier:
         for nm in free:
             if nm not in st.env and nm not in consts and nm not in ('np', 'math', 'u', 'True', 'False', 'None', 'float',
                                                                      'int', 'bool', 'len', 'abs', 'min', 'max',
-                                                                     'slice', 'tuple'):
+                                                                     'slice', 'tuple', 'list', 'set', 'sorted', 'sum',
+                                                                     'range', 'zip', 'enumerate', 'round', 'all', 'any'):
                 raise Unsupported(f'free variable {nm} of the statement has no type in the '
                                   'contract')
         env0 = dict(st.env)
